@@ -162,6 +162,11 @@ func noop(note string) stdSpec {
 }
 
 func nonNilErr(fr *frame, c *ssa.CallCommon, args []T, st *state, pos string) []T {
+	if len(fr.vc.capStack) > 0 {
+		// under a binder (a pure function's panic branch inlined inside a quantified specification): no fresh
+		// constant can be declared here; the value only feeds a panic
+		return []T{{"1", "Int", c.Signature().Results().At(0).Type()}}
+	}
 	e := fr.vc.declareConst("err", "Int")
 	fr.vc.assume("true", fmt.Sprintf("(> %s 0)", e))
 	fr.vc.assumedStd["fmt.Errorf / errors.New return a non-nil error"] = true
